@@ -39,6 +39,9 @@ CLAIMED = {
  "C19": ("Hypothesis property-based testing; oracles = evaluation equivalence on boxes and random points, idempotence, round trips through the real attribute printer/parser, reference bit packing; small spaces exhaustively",
          "Six pure-function sub-properties (affine canonicalisation, AffineTransform round trips/compose, AccessPattern canonicalize/inner_dims, StridePattern canonicalize + print/parse, pack_bitlist, StreamerConfigurationAttr print/parse) are each checked on tens of thousands of generated inputs per run against independent reference evaluators. Exploration level.",
          TRUST + " One known finding (xDMA system type lost in the streamer-config text) is classified by a narrow signature.", "4/C19"),
+ "C02": ("Hypothesis property-based testing through the real pipeline; oracle = reference model (schedule enumeration with an own layout address function vs streamer address model expansion of the emitted stride patterns), per temporal step byte-sequence equality incl. documented spatial fill-up grouping",
+         "Generated dart.operation ops (alu element-wise, gemmx matmul/gemm/conv-like; shapes multiple and non-multiple of the template; row-major, compiler-chosen tiled/untiled and given strided layouts) are lowered with dart-scheduler, set-memory-layout, dart-layout-resolution and convert-dart-to-snax-stream; the stride patterns handed to set_stride_patterns and those of the final streaming region are expanded to per-step byte sequences and compared with the bytes the schedule assigns to each step under the operand's layout. Exploration level.",
+         TRUST + " Streamer address model from the StridePattern docstring; template and port sizes are taken from the accelerator classes as hardware description; operands relying on the streamer's undocumented broadcast mode (schedule-level broadcast such as a 1-D bias) are not compared; inputs whose innermost run is not contiguous to a bank word are outside the documented domain (layouts not chosen by the compiler only).", "4/C02"),
  "C03": ("Hypothesis property-based testing; oracle = iteration-multiset invariant (numpy enumeration); exhaustive enumeration of a small sub-space in thorough",
          "Random and (thorough) exhaustive-small search over schedules, templates and transformation chains; every yielded schedule of the backtracking scheduler is compared with the input as a multiset of operand-index tuples. Exploration is the right level: the functions are pure and cheap, so tens of thousands of cases per run are possible, but the input space is unbounded.",
          TRUST + " Iteration box semantics taken from the SchedulePattern docstrings.", "4/C03"),
